@@ -25,6 +25,7 @@ def run(tier):
   cc.replay_scenarios(rep, 'GinCore_Scen_lock', max_files=250 if tier == 'quick' else 2000, nontrivial=_nontrivial, depth=9)
   n = 150 if tier == 'quick' else 4000
   cc.replay_behaviours(rep, 'GinCore_Sim_lock', num=n, depth=14, nontrivial=_nontrivial)
+  cc.trace_validate(rep, 50 if tier == 'quick' else 600, seed_off=112)
   return rep.finish()
 
 
